@@ -199,9 +199,9 @@ impl Scenario for StreamPos {
         let mask: u64 = if f.counter_bits() == 32 { 0xffff_ffff } else { u64::MAX };
         let vi = STREAM_VARIANTS.iter().position(|x| x.name == sp.v.name).unwrap() as u32;
         // size of the one-call reference stream: everything reachable without a far seek
-        let total: usize = t.ops.iter().map(|o| (o.len as usize).min(4096)).sum();
+        let total: usize = t.ops.iter().map(|o| (o.len as usize).min(300_000)).sum();
         let maxseek: u64 = t.ops.iter().filter(|o| o.k == K_SEEK).map(|o| o.arg & 0xffff_ffff).filter(|a| *a < 2048).max().unwrap_or(0);
-        let blocks = (total / 64 + 3 + maxseek as usize).min(4096);
+        let blocks = (total / 64 + 3 + maxseek as usize).min(400_000);
         let mut reference = Reference::new(&sp, blocks).map_err(|m| Violation::new("unexpected-panic", 0, "one-call reference stream", m, sp.v.name))?;
         let first = guarded(|| make_stream(&sp.v, sp.rounds, &sp.key, &sp.nonce)).map_err(|m| Violation::new("unexpected-panic", 0, "context constructed", m, sp.v.name))?;
         let mut hs: Vec<Handle> = vec![Handle { obj: first, blk: 0, off: 0 }];
@@ -240,7 +240,7 @@ impl Scenario for StreamPos {
                     hd.off = 0;
                 }
                 K_PROCESS | K_PROCESS_MUT | K_TWICE => {
-                    let len = (op.len as usize).min(4096);
+                    let len = (op.len as usize).min(300_000);
                     let input = Aligned::new(op.seed, len, (op.off % 32) as usize);
                     let (blk, off) = (hs[h].blk, hs[h].off);
                     let ks = reference.bytes(blk, off, len, mask, i, obs)?;
